@@ -10,7 +10,7 @@ TECHNIQUE = 'MIR call-graph effect analysis (alloc/free/block/panic/loop) with e
 
 def run(ctx, R, tier):
     F = ctx.facts('default')
-    run_engine_a(R, F, groups=('rt',), config='default', singular=True, singular_floor=75)
+    run_engine_a(R, F, groups=('rt',), config='default', singular=True, singular_floor=55)
     from .c01_out import run_out
     run_out(ctx, R, F)
     if tier == 'thorough':
